@@ -78,7 +78,7 @@ type proxyRig struct {
 	done chan error
 }
 
-func startProxy(st stack, lim limits) (*proxyRig, error) {
+func startProxy(st stack, lim limits, rateLimit int) (*proxyRig, error) {
 	cfg := forwarder.DefaultHTTPProxyConfig()
 	cfg.Address = "127.0.0.1:0"
 	cfg.ProxyLocalhost = forwarder.AllowProxyLocalhost
@@ -89,6 +89,11 @@ func startProxy(st stack, lim limits) (*proxyRig, error) {
 	cfg.PromRegistry = prometheus.NewRegistry()
 	if st.PP {
 		cfg.ProxyProtocolConfig = &forwarder.ProxyProtocolConfig{ReadHeaderTimeout: time.Duration(lim.PP) * time.Millisecond}
+	}
+	if rateLimit > 0 {
+		// --read-limit / --write-limit: one token bucket per direction, shared by all connections of the listener
+		cfg.ReadLimit = forwarder.SizeSuffix(rateLimit)
+		cfg.WriteLimit = forwarder.SizeSuffix(rateLimit)
 	}
 	if st.TLS {
 		cfg.Protocol = forwarder.HTTPSScheme
@@ -715,6 +720,9 @@ type acceptScenario struct {
 	CapMs   int    `json:"cap_ms"`   // the probe gives up after this long
 	Lim     limits `json:"lim"`
 	Probes  int    `json:"probes"`
+	// RateLimit > 0: the listener has --read-limit/--write-limit set to this many bytes/s.  Stalled peers
+	// must not use up the shared bucket: they move no bytes.
+	RateLimit int `json:"rate_limit"`
 }
 
 type acceptResult struct {
@@ -764,7 +772,7 @@ func probe(r *proxyRig, org *origin, capMs int) (int64, bool, string) {
 
 func runAccept(sc acceptScenario, org *origin, hello []byte) (res acceptResult) {
 	res.Sc = sc
-	r, err := startProxy(stackByName(sc.Stack), sc.Lim)
+	r, err := startProxy(stackByName(sc.Stack), sc.Lim, sc.RateLimit)
 	if err != nil {
 		res.Err = "start proxy: " + err.Error()
 		return
@@ -829,6 +837,16 @@ func runAccept(sc acceptScenario, org *origin, hello []byte) (res acceptResult) 
 
 func genAccept(lim limits, tier string) []acceptScenario {
 	var out []acceptScenario
+	// stalled peers x configured rate limit: more silent connections than burst / read-buffer size
+	// (4 MiB / 4 KiB = 1024) must not delay a fresh client
+	rl := []int{1100}
+	if tier == "thorough" {
+		rl = []int{200, 1100, 2500}
+	}
+	for _, n := range rl {
+		out = append(out, acceptScenario{Name: fmt.Sprintf("plain+ratelimit/silent/n%d", n), Stack: "plain", N: n, PeerOp: "silent",
+			CapMs: 2500, Lim: limits{Idle: 3000, Rhdr: 350, Read: 0, TLS: 500, PP: 200}, Probes: 2, RateLimit: 64 << 10})
+	}
 	ns := []int{1, 3, 20}
 	if tier == "thorough" {
 		ns = []int{1, 3, 20, 200}
@@ -1047,7 +1065,7 @@ func main() {
 		wg.Add(1)
 		go func(k key, idx []int) {
 			defer wg.Done()
-			rig, err := startProxy(stackByName(k.st), k.lim)
+			rig, err := startProxy(stackByName(k.st), k.lim, 0)
 			if err != nil {
 				for _, i := range idx {
 					tres[i] = timingResult{Sc: tsc[i], ClosedMs: -1, Err: "start proxy: " + err.Error()}
